@@ -29,6 +29,8 @@ type Config struct {
 	FeasTimeout    time.Duration
 	LogQueries     string // file to dump queries
 	Trace          bool
+	Incremental    bool // one solver session per path (push/pop per query) instead of one-shot scripts
+	Summaries      bool // use the C18-justified compkey summary
 	FixedIterOrder bool // iterate stores in insertion order only (no permutation forks)
 }
 
@@ -54,6 +56,9 @@ type Path struct {
 	depth     int
 	steps     int
 	blobID    int
+	script    *smt.Script // incremental mode: persistent per-path script
+	sentPC    int
+	sentInst  map[int]bool
 	bank      *BankModel
 	extra     map[string]interface{}
 }
@@ -91,7 +96,22 @@ type Exec struct {
 	path   *Path
 	work   [][]int // pending decision prefixes
 
-	// results accumulated over all paths of the current harness
+	*ResultSet // results accumulated for the harness currently being explored
+	initMode    bool
+	catchDepth  int
+	harnessName string
+
+	// per-path scratch (reset in runOnePath)
+	curDeferFrame    []*frame
+	joins            []joinRec
+	splitObligations []splitOb
+	digitAtoms       []*smt.Term
+	bech32Atoms      []*smt.Term
+	viewAtoms        []viewAtom
+}
+
+// ResultSet accumulates the results of the paths of one harness.
+type ResultSet struct {
 	Checks      map[string]*CheckStat
 	Violations  []CheckResult
 	Unknowns    []CheckResult
@@ -105,17 +125,46 @@ type Exec struct {
 	LockTraces  map[string]bool
 	EventTraces map[string]bool
 	Notes       map[string]bool
-	initMode    bool
-	catchDepth  int
-	harnessName string
+}
 
-	// per-path scratch (reset in runOnePath)
-	curDeferFrame    []*frame
-	joins            []joinRec
-	splitObligations []splitOb
-	digitAtoms       []*smt.Term
-	bech32Atoms      []*smt.Term
-	viewAtoms        []viewAtom
+func NewResultSet() *ResultSet {
+	return &ResultSet{
+		Checks: map[string]*CheckStat{}, Covers: map[string]*CoverResult{}, PathsEnded: map[string]int{},
+		FuncsSeen: map[string]bool{}, StubsSeen: map[string]bool{}, PreWrites: map[string]bool{},
+		LockTraces: map[string]bool{}, EventTraces: map[string]bool{}, Notes: map[string]bool{},
+	}
+}
+
+// Merge adds o into r.
+func (r *ResultSet) Merge(o *ResultSet) {
+	for k, v := range o.Checks {
+		st := r.Checks[k]
+		if st == nil {
+			st = &CheckStat{}
+			r.Checks[k] = st
+		}
+		st.Instances += v.Instances
+		st.Holds += v.Holds
+		st.Violated += v.Violated
+		st.Unknown += v.Unknown
+	}
+	r.Violations = append(r.Violations, o.Violations...)
+	r.Unknowns = append(r.Unknowns, o.Unknowns...)
+	for k, v := range o.Covers {
+		if _, ok := r.Covers[k]; !ok {
+			r.Covers[k] = v
+		}
+	}
+	r.Paths += o.Paths
+	for k, v := range o.PathsEnded {
+		r.PathsEnded[k] += v
+	}
+	r.EngineErrs = append(r.EngineErrs, o.EngineErrs...)
+	for _, pair := range []struct{ dst, src map[string]bool }{{r.FuncsSeen, o.FuncsSeen}, {r.StubsSeen, o.StubsSeen}, {r.PreWrites, o.PreWrites}, {r.LockTraces, o.LockTraces}, {r.EventTraces, o.EventTraces}, {r.Notes, o.Notes}} {
+		for k := range pair.src {
+			pair.dst[k] = true
+		}
+	}
 }
 
 type CheckStat struct {
@@ -158,6 +207,7 @@ func NewExec(p *Program, cfg Config) (*Exec, error) {
 	if err != nil {
 		return nil, err
 	}
+	s.IncTimeout = 4 * time.Second
 	return &Exec{P: p, Cfg: cfg, solver: s}, nil
 }
 
@@ -165,23 +215,9 @@ func (e *Exec) Close() { e.solver.Close() }
 
 func (e *Exec) SetSolverLog(w interface{ Write([]byte) (int, error) }) { e.solver.Log = w }
 
-func (e *Exec) resetResults() {
-	e.Checks = map[string]*CheckStat{}
-	e.Violations = nil
-	e.Unknowns = nil
-	e.Covers = map[string]*CoverResult{}
-	e.Paths = 0
-	e.PathsEnded = map[string]int{}
-	e.EngineErrs = nil
-	e.FuncsSeen = map[string]bool{}
-	e.StubsSeen = map[string]bool{}
-	e.PreWrites = map[string]bool{}
-	e.LockTraces = map[string]bool{}
-	e.EventTraces = map[string]bool{}
-	e.Notes = map[string]bool{}
-}
+func (e *Exec) resetResults() { e.ResultSet = NewResultSet() }
 
-// RunHarness explores all paths of fn.
+// RunHarness explores all paths of fn sequentially (single worker).
 func (e *Exec) RunHarness(fn *ssa.Function) {
 	e.resetResults()
 	e.harnessName = fn.Name()
@@ -193,12 +229,26 @@ func (e *Exec) RunHarness(fn *ssa.Function) {
 			e.EngineErrs = append(e.EngineErrs, fmt.Sprintf("path cap %d reached", e.Cfg.MaxPaths))
 			return
 		}
-		e.Paths++
-		e.runOnePath(fn, prefix)
+		e.RunPath(fn, prefix)
 		if len(e.EngineErrs) > 20 {
 			return
 		}
 	}
+}
+
+// RunPath runs one path given a decision prefix and returns the alternative
+// prefixes discovered (also left in e.work).
+func (e *Exec) RunPath(fn *ssa.Function, prefix []int) {
+	e.harnessName = fn.Name()
+	e.Paths++
+	e.runOnePath(fn, prefix)
+}
+
+// TakeWork removes and returns pending alternatives.
+func (e *Exec) TakeWork() [][]int {
+	w := e.work
+	e.work = nil
+	return w
 }
 
 func (e *Exec) runOnePath(fn *ssa.Function, prefix []int) {
@@ -332,6 +382,58 @@ func (e *Exec) assume(c *smt.Term) {
 
 func (e *Exec) addAxiom(c *smt.Term) { e.assume(c) }
 
+// solve decides pc ∧ extra. With getTerms, returns their model values.
+func (e *Exec) solve(extra []*smt.Term, getTerms []*smt.Term) (smt.Result, []string, error) {
+	if !e.Cfg.Incremental {
+		s := e.script(extra...)
+		var q []string
+		for _, t := range getTerms {
+			q = append(q, s.Ref(t))
+		}
+		return e.solver.Check(s.String(), q)
+	}
+	p := e.path
+	if p.script == nil {
+		p.script = smt.NewScript()
+		p.sentInst = map[int]bool{}
+		e.solver.Begin()
+	}
+	for ; p.sentPC < len(p.pc); p.sentPC++ {
+		p.script.Assert(p.pc[p.sentPC])
+	}
+	for _, c := range p.instantiations() {
+		if c.IsTrue() || p.sentInst[c.ID()] {
+			continue
+		}
+		p.sentInst[c.ID()] = true
+		p.script.Assert(c)
+	}
+	// definitions needed by extra and getTerms go to the top level
+	var refs, q []string
+	for _, c := range extra {
+		refs = append(refs, p.script.Ref(c))
+	}
+	for _, t := range getTerms {
+		q = append(q, p.script.Ref(t))
+	}
+	e.solver.Add(p.script.Drain())
+	var ex strings.Builder
+	for _, r := range refs {
+		ex.WriteString("(assert " + r + ")\n")
+	}
+	r, vals, err := e.solver.CheckInc(ex.String(), q)
+	if r == smt.Unknown {
+		// fall back to a one-shot script (full tactic pipeline, full timeout)
+		s := e.script(extra...)
+		var q1 []string
+		for _, t := range getTerms {
+			q1 = append(q1, s.Ref(t))
+		}
+		return e.solver.Check(s.String(), q1)
+	}
+	return r, vals, err
+}
+
 func (e *Exec) script(extra ...*smt.Term) *smt.Script {
 	s := smt.NewScript()
 	for _, c := range e.path.pc {
@@ -352,8 +454,7 @@ func (e *Exec) feasible(c *smt.Term) smt.Result {
 	if c.IsFalse() {
 		return smt.Unsat
 	}
-	s := e.script(c)
-	r, _, err := e.solver.Check(s.String(), nil)
+	r, _, err := e.solve([]*smt.Term{c}, nil)
 	if err != nil {
 		e.Notes["solver: "+err.Error()] = true
 		return smt.Unknown
@@ -397,8 +498,7 @@ func (e *Exec) check(cond *smt.Term, label string) {
 		return
 	}
 	neg := smt.Not(cond)
-	s := e.script(neg)
-	r, _, err := e.solver.Check(s.String(), nil)
+	r, _, err := e.solve([]*smt.Term{neg}, nil)
 	if err != nil {
 		e.Notes["solver: "+err.Error()] = true
 	}
@@ -474,15 +574,13 @@ func (e *Exec) extractOracle(extra ...*smt.Term) (map[string]interface{}, error)
 		if len(small) == 0 {
 			break
 		}
-		s := e.script(append(append([]*smt.Term{}, extra...), small...)...)
-		if r, _, err := e.solver.Check(s.String(), nil); err == nil && r == smt.Sat {
+		if r, _, err := e.solve(append(append([]*smt.Term{}, extra...), small...), nil); err == nil && r == smt.Sat {
 			extra = append(append([]*smt.Term{}, extra...), small...)
 			break
 		}
 	}
-	s := e.script(extra...)
 	// phase 1: scalars and lengths
-	var q []string
+	var q []*smt.Term
 	type slot struct {
 		site int
 		what string
@@ -491,18 +589,18 @@ func (e *Exec) extractOracle(extra ...*smt.Term) (map[string]interface{}, error)
 	for i, ns := range p.nondets {
 		switch ns.Kind {
 		case "bytes", "string":
-			q = append(q, s.Ref(ns.Len))
+			q = append(q, ns.Len)
 			slots = append(slots, slot{i, "len"})
 		case "atom":
-			q = append(q, s.Ref(strlenOf(ns.Term)))
+			q = append(q, strlenOf(ns.Term))
 			slots = append(slots, slot{i, "len"})
 		default:
-			q = append(q, s.Ref(ns.Term))
+			q = append(q, ns.Term)
 			slots = append(slots, slot{i, "val"})
 		}
 	}
 	if len(q) == 0 {
-		r, _, err := e.solver.Check(s.String(), nil)
+		r, _, err := e.solve(extra, nil)
 		if err != nil {
 			return nil, err
 		}
@@ -511,7 +609,7 @@ func (e *Exec) extractOracle(extra ...*smt.Term) (map[string]interface{}, error)
 		}
 		return map[string]interface{}{}, nil
 	}
-	r, vals, err := e.solver.Check(s.String(), q)
+	r, vals, err := e.solve(extra, q)
 	if err != nil {
 		return nil, err
 	}
@@ -551,8 +649,8 @@ func (e *Exec) extractOracle(extra ...*smt.Term) (map[string]interface{}, error)
 		}
 	}
 	// phase 2: bytes, with lengths and scalars pinned
-	s2 := e.script(append(append([]*smt.Term{}, extra...), pin...)...)
-	var q2 []string
+	extra2 := append(append([]*smt.Term{}, extra...), pin...)
+	var q2 []*smt.Term
 	type bslot struct {
 		site int
 		idx  int
@@ -573,7 +671,7 @@ func (e *Exec) extractOracle(extra ...*smt.Term) (map[string]interface{}, error)
 			} else {
 				t = smt.Select(ns.Arr, c64(j))
 			}
-			q2 = append(q2, s2.Ref(t))
+			q2 = append(q2, t)
 			bslots = append(bslots, bslot{i, j})
 		}
 	}
@@ -591,7 +689,7 @@ func (e *Exec) extractOracle(extra ...*smt.Term) (map[string]interface{}, error)
 		}
 	}
 	if len(q2) > 0 {
-		r, vals, err := e.solver.Check(s2.String(), q2)
+		r, vals, err := e.solve(extra2, q2)
 		if err != nil {
 			return nil, err
 		}
